@@ -226,3 +226,19 @@ func (yieldLogger) Warnln(args ...interface{})                { rt.Yield("log") 
 func (yieldLogger) Error(args ...interface{})                 { rt.Yield("log") }
 func (yieldLogger) Errorf(format string, args ...interface{}) { rt.Yield("log") }
 func (yieldLogger) Errorln(args ...interface{})               { rt.Yield("log") }
+
+// gateLogger is a caller-supplied logger that calls f at every log line (a log sink that takes its time).
+type gateLogger struct{ f func() }
+
+func (g gateLogger) Debug(args ...interface{})                 { g.f() }
+func (g gateLogger) Debugf(format string, args ...interface{}) { g.f() }
+func (g gateLogger) Debugln(args ...interface{})               { g.f() }
+func (g gateLogger) Info(args ...interface{})                  { g.f() }
+func (g gateLogger) Infof(format string, args ...interface{})  { g.f() }
+func (g gateLogger) Infoln(args ...interface{})                { g.f() }
+func (g gateLogger) Warn(args ...interface{})                  { g.f() }
+func (g gateLogger) Warnf(format string, args ...interface{})  { g.f() }
+func (g gateLogger) Warnln(args ...interface{})                { g.f() }
+func (g gateLogger) Error(args ...interface{})                 { g.f() }
+func (g gateLogger) Errorf(format string, args ...interface{}) { g.f() }
+func (g gateLogger) Errorln(args ...interface{})               { g.f() }
